@@ -563,6 +563,9 @@ def run(model, rep, tier):
     check_shared_alloc(model, rep)
     check_parallel_regions(model, rep)
     check_out_aliases(model, rep)
+    rep.rule('R16.7', 'every name loaded in parallel.py resolves (symtable)')
+    from rules import names as _names
+    _names.check(model, rep, 'R16.7', ('parallel',), 10)
     rep.require('R16.1', 5)
     rep.require('R16.2', 14)
     rep.require('R16.3', 14)
